@@ -58,6 +58,11 @@ def P_C15_timing (c : TimingCase) (o : TimingObs) : Verdict :=
   else if !o.removed then some "socket-path-not-removed"
   else if served.any (fun k => !k.complete) then some "accepted-connection-not-served-to-completion"
   else if served.any (fun k => k.closed > o.ret + slack) then some "returned-while-a-connection-was-still-being-served"
+  -- a connection that was never served may only be one still waiting in the kernel's backlog when the
+  -- listener went away (then it ends when `listen` returns); one that ended long before that had been
+  -- accepted and was dropped
+  else if o.conns.any (fun k => !k.gotFirst && k.accepted > 0 && k.closed + 250 < o.ret) then
+    some "accepted-connection-dropped-without-being-served"
   else if o.result == "timeout" then
     if c.idle == 0 then some "timeout-without-idle-timeout"
     else
